@@ -1,7 +1,7 @@
 //! Correspondence harness: runs the real Heathcliff code in-process on generated inputs and
 //! prints one case per line (`fn args => impl-output # class`).  See /verif/DESIGN.md §3.3.
 mod rng; mod util;
-mod big; mod ctx; mod c01; mod c02; mod c04; mod c11; mod c05; mod c07; mod c08; mod c09; mod c10; mod c13; mod c16;
+mod big; mod ctx; mod c01; mod c02; mod c04; mod c11; mod c05; mod c06; mod c07; mod c08; mod c09; mod c10; mod c13; mod c16;
 
 fn main() {
     let a: Vec<String> = std::env::args().collect();
@@ -17,6 +17,7 @@ fn main() {
         "C04" => c04::run(&mut out, thorough, seed, &extra),
         "C11" => c11::run(&mut out, thorough, seed, &extra),
         "C05" => c05::run(&mut out, thorough, seed, &extra),
+        "C06" => c06::run(&mut out, thorough, seed, &extra),
         "C07" => c07::run(&mut out, thorough, seed, &extra),
         "C08" => c08::run(&mut out, thorough, seed, &extra),
         "C09" => c09::run(&mut out, thorough, seed, &extra),
